@@ -61,9 +61,11 @@ Definition da_verdict (rf : Z) : Da.verdict := fun x pi =>
   if (1 <=? Da.i_n x) && (Da.i_n x <=? N_MAX) && (0 <=? Da.i_parity x) && (Da.i_parity x <=? N_MAX)
   then Da.code_verdict Da.repaired rf x pi else Some [].
 
-(* GetZkpThreshold after notes/patches/C01-da-replication-factor.patch:
+(* GetZkpThreshold at /repo HEAD (commit 9a90e6f, notes/patches/C01-da-replication-factor.patch):
    no active validator -> error (logged by the caller); the quotient is compared with the shard
-   count as a decimal before it is truncated to an int64 *)
+   count as a decimal before it is truncated to an int64.  Equal to C09's Tally.zkp_threshold
+   whenever there is an active validator (BlocksProofs.zkp_threshold_c_is_tally);
+   Tally.zkp_threshold_old is the formula as found. *)
 Definition zkp_threshold_c (rf n nact : Z) : res Z :=
   if nact =? 0 then Err 1 else
   match (let? a := dmul_int rf n in let? b := dquo_int a nact in dceil b) with
@@ -81,7 +83,7 @@ Record da_in := {
 (* [clamped] = with the repair of GetZkpThreshold *)
 Definition da_threshold_ok (clamped : bool) (rf n nact : Z) : bool :=
   if clamped then negb (is_panic (zkp_threshold_c rf n nact))
-  else match Tally.zkp_threshold rf n nact with Some _ => true | None => false end.
+  else match Tally.zkp_threshold_old rf n nact with Some _ => true | None => false end.
 
 Definition da_end (clamped : bool) (height now : Z) (i : da_in) : res (Da.dstate * bank) :=
   let s := di_state i in
